@@ -39,6 +39,13 @@ type Val struct {
 	Tuple     []Val      // multi-value
 	Refl      *reflVal   // reflect.Value handles (reflectmodel.go)
 	ReflElems []Val      // a []reflect.Value built in place (variadic operand of reflect.Append)
+	PtrAlts   []PtrAlt   // a pointer that is one of several known addresses (or nil), by incoming path
+}
+
+// PtrAlt: under Guard the pointer is V (V.Loc set for an address, V.T == "0" for nil, or an ordinary reference term).
+type PtrAlt struct {
+	Guard string
+	V     Val
 }
 
 type LocKind int
